@@ -228,7 +228,7 @@ REGISTRY["C10"] = {
         {"name": "TestC10Boundary", "checks": {"quick": 100, "thorough": 3000}, "shards": {"quick": 12, "thorough": 16}, "gomaxprocs": [4, 2, 16, 1]},
         {"name": "TestC10Boundary", "label": "TestC10Boundary-unrestricted", "env": {"VERIF_UNRESTRICTED": "1"},
          "checks": {"quick": 100, "thorough": 2000}, "shards": {"quick": 4, "thorough": 8}},
-        {"name": "TestC10LateEvent", "checks": {"quick": 250, "thorough": 5000}, "shards": {"quick": 8, "thorough": 16}, "gomaxprocs": [4, 2, 16, 1]},
+        {"name": "TestC10LateEvent", "checks": {"quick": 600, "thorough": 6000}, "shards": {"quick": 12, "thorough": 16}, "gomaxprocs": [4, 2, 16, 1]},
     ],
 }
 
